@@ -153,6 +153,29 @@ theorem fpIsLarger_negMod {y : Nat} (h : y < Bls.p) (h0 : y ≠ 0) : fpIsLarger 
   · simp only [hy, decide_false, Bool.not_false, decide_eq_true_eq]; omega
 
 
+/-! ### big-endian bytes -/
+
+theorem foldl_be_lt (l : Bytes) : ∀ acc k, acc < 256 ^ k →
+    l.foldl (fun a (x : UInt8) => a * 256 + x.toNat) acc < 256 ^ (k + l.length) := by
+  induction l with
+  | nil => intro acc k h; simpa using h
+  | cons x xs ih =>
+    intro acc k h
+    simp only [List.foldl, List.length_cons]
+    have hx := UInt8.toNat_lt x
+    have : acc * 256 + x.toNat < 256 ^ (k + 1) := by
+      rw [Nat.pow_succ]; omega
+    have := ih _ _ this
+    rwa [Nat.add_assoc, Nat.add_comm 1] at this
+
+theorem natOfBytesBE_lt (l : Bytes) : natOfBytesBE l < 256 ^ l.length := by
+  have := foldl_be_lt l 0 0 (by decide)
+  simpa [natOfBytesBE] using this
+
+theorem natOfBytesBE_cons_zero (l : Bytes) : natOfBytesBE (0 :: l) = natOfBytesBE l := by
+  simp [natOfBytesBE, List.foldl]
+
+
 /-! ### small facts used by Props/C32 -/
 open Ops in
 theorem groupOrder_pos : (0 : Int) < (Gen.Crypto.groupOrder : Int) := by
